@@ -65,6 +65,11 @@ def decorate_answer(answer, request):
         if not answer.header.is_error():
             answer.header.set_error_bit(True)
 
+    elif answer.has_avp("result_code_avp") and answer.header.is_error():
+        #: The Result-Code which is sent is not an error: neither is the
+        #: answer, whatever an earlier use of the object left in its header.
+        answer.header.set_error_bit(False)
+
     if answer.has_avp("experimental_result_avp"):
         if answer.has_avp("result_code_avp"):
             answer.pop("result_code_avp")
